@@ -364,6 +364,20 @@ def decodeDataB (T : Tables) (fuel : Nat) (t : Template) (enforce : Enforce) (ns
       | .ok (st, subs) => .ok (some { subsets := subs, invalid := st.invalid, early := st.early })
     else decodeCompressedAllB T t.edition enforce fuel s4max bsq err { nsub := nsub, from_ := from_, to := to } r0
 
+/-- `bufr_create_af` calls `bufr_abort` for more than 64 bits of associated fields ("current
+implementation does not support >64 AF bits"): a decoded node that was given a value while more
+than 64 bits of associated fields were in force for it -/
+def afOverflow (out : DecodeOut) : Bool :=
+  out.subsets.any fun s => s.any fun n => n.val.isSome && decide (listSumN n.af > 64)
+
+/-- `decodeDataB` with that implementation limit: the decoder never returns such a dataset, the
+application's abort handler is called while it is being built (a refusal) -/
+def decodeDataC (T : Tables) (fuel : Nat) (t : Template) (enforce : Enforce) (nsub : Nat) (compressed : Bool)
+    (s4max : Nat) (data : List Nat) (from0 to0 : Int) : Except XErr (Option DecodeOut) :=
+  match decodeDataB T fuel t enforce nsub compressed s4max data from0 to0 with
+  | .ok (some out) => if afOverflow out then .error .abort else .ok (some out)
+  | r => r
+
 /-- `bufr_create_datasubset(dts)` with the bit-map head (`createDatasubset`) -/
 def createDatasubsetB (T : Tables) (fuel : Nat) (t : Template) : Except XErr (Subset × Bool) :=
   let r := if t.hasDelayed then expandSequence T fuel (OP_EXPAND_DELAY_REPL ||| OP_ZDRC_SKIP) t.gabarit
